@@ -156,7 +156,7 @@ func c04Deadline(c *cx) {
 			n++
 			c.dom(id, f, d, "defer setDeadline(ctx, conn)()", []string{"commaok(*.(net.Conn))"})
 			pt, _ := g.Where(d)
-			okArgs := len(inner.Args) == 2 && f.Norm(inner.Args[0], &pt) == "p0" && eng.Glob("*rw<io.ReadWriter>.(net.Conn)", f.Norm(inner.Args[1], &pt))
+			okArgs := len(inner.Args) == 2 && f.Norm(inner.Args[0], &pt) == "p0" && eng.Glob("*<io.ReadWriter>.(net.Conn)", f.Norm(inner.Args[1], &pt))
 			c.r.Check(id, f, "setDeadline arguments", "P: the deadline watcher gets the caller's context and the transport", d.Pos(), okArgs, "arguments are not (ctx, rw.(net.Conn))")
 			// on the net.Conn edge every path to the negotiator call passes the defer
 			for _, cl := range f.AllCalls() {
